@@ -396,6 +396,54 @@ func statelessRule(e *Env, rule string, rels ...string) {
 		}
 	}
 	e.R.Hold(rule, "methods-scanned", fmt.Sprintf("%d methods of %v scanned for writes through the receiver", n, rels))
+	// the same for a cache that lives in a local variable of a step: a map whose values are compiled results
+	// (types of package output, resolver.ArgExpr, token.Token) and that is read back — results keyed by a part
+	// of the element (a name, the printed value) are reused for another element that differs elsewhere
+	memo := 0
+	for _, fn := range e.P.Funcs() {
+		root := rootFn(fn)
+		in := false
+		if root.Pkg != nil {
+			for _, rel := range rels {
+				if root.Pkg.Pkg.Path() == e.P.ModPath+"/"+rel {
+					in = true
+				}
+			}
+		}
+		if !in || isGeneratedFn(e.P, root) {
+			continue
+		}
+		for _, b := range fn.Blocks {
+			for _, ins := range b.Instrs {
+				lk, ok := ins.(*ssa.Lookup)
+				if !ok {
+					continue
+				}
+				mt, ok := lk.X.Type().Underlying().(*types.Map)
+				if !ok {
+					continue
+				}
+				el := mt.Elem()
+				if pt, isP := el.Underlying().(*types.Pointer); isP {
+					el = pt.Elem()
+				}
+				nt, ok := el.(*types.Named)
+				if !ok || nt.Obj().Pkg() == nil {
+					continue
+				}
+				pp := nt.Obj().Pkg().Path()
+				isResult := pp == e.P.ModPath+"/"+outputRel || (pp == e.P.ModPath+"/internal/pkg/resolver" && nt.Obj().Name() == "ArgExpr") || (pp == e.P.ModPath+"/internal/pkg/token" && (nt.Obj().Name() == "Token" || nt.Obj().Name() == "Tokens"))
+				if !isResult {
+					continue
+				}
+				memo++
+				e.R.Violate(rule, e.P.FuncKey(fn)+"#memoised-result", fmt.Sprintf("a compiled result (%s) is read back from a map: an element that agrees with an earlier one on the key but differs elsewhere gets the earlier one's result", nt.Obj().Name()), nil, e.P.Pos(lk.Pos()))
+			}
+		}
+	}
+	if memo == 0 {
+		e.R.Hold(rule, "no-memoised-results", fmt.Sprintf("no function of %v reads a compiled result back from a map", rels))
+	}
 }
 
 var _ = packages.NeedName
